@@ -1272,6 +1272,35 @@ theorem delivered_by_kept_report {hz n : Nat} {sched : Nat → Op}
   have := h3 (by rw [hcx]; exact hend)
   rwa [hcx] at this
 
+/-- the hypotheses of `delivered_by_kept_report` are satisfiable: `fairSched`, call at step 3, `keep` at
+step 4 -/
+example : ∃ (hz n : Nat) (sched : Nat → Op) (k j m : Nat) (x : Sub) (i : Nat) (p : Entry) (now ev : Nat),
+    (∀ k, (stateAt hz n sched k).changed.nextId + 1 < U64) ∧ UnsentOk hz n sched ∧
+    (i, p) ∈ (stateAt hz n sched k).log ∧ k ≤ j ∧ j < m ∧ NoRestart sched k (m + 1) ∧
+    x ∈ (stateAt hz n sched j).subs ∧ x.seenAttr < i ∧ sched j = .report now ev ∧
+    x.reportAllowedAt hz ≤ now ∧
+    FirstInLine hz (stateAt hz n sched j).subs x now (stateAt hz n sched j).changed.entries ev ∧
+    sched m = .fin x.id .keep ∧
+    (∀ c, BeginsAt hz n sched j c → c.sub = x → ∀ t, j < t → t ≤ m → c ∈ (stateAt hz n sched t).ctxs) :=
+  ⟨1000000, 1, fairSched, 3, 3, 4, sub1', 1, P 1 2 3, 5000000, 0, fair_nowrap,
+    fun k id hs => absurd hs (fairSched_no_unsent k id), by decide, by omega, by omega,
+    fairSched_no_restart _ _, by decide, by decide, rfl, by decide,
+    by
+      have : (stateAt 1000000 1 fairSched 3).subs = [sub1'] := by decide
+      rw [this]; exact firstInLine_sole _ _ _ _ _,
+    rfl,
+    fun c hb hcx t h1 h2 => by
+      have ht : t = 4 := by omega
+      subst ht
+      have hc : c = fairCtx := by
+        cases c with
+        | mk sub na ne nr nrt nf =>
+          obtain ⟨_, _, _, _, hmem⟩ := hb
+          have : (stateAt 1000000 1 fairSched (3 + 1)).ctxs = [fairCtx] := by decide
+          rw [this] at hmem
+          exact List.mem_singleton.mp hmem
+      rw [hc]; decide⟩
+
 /-! ### Timing, on runs (for every history, not for one value) -/
 
 /-- **"Reports are not sent more often than the minimum interval" — on runs**
@@ -1400,6 +1429,24 @@ example : ∃ (hz n : Nat) (sched : Nat → Op) (m1 j2 : Nat) (c1 c2 : Ctx),
   ⟨1000000, 1, twoReports, 4, 5, ctxA, ctxB, twoReports_nowrap, by decide, rfl, by omega,
     twoReports_no_restart _ _, fun t h1 h2 => by omega, ⟨35000000, 0, rfl, by decide, by decide⟩, rfl,
     by decide, by decide, by decide⟩
+
+/-- the hypotheses of `liveness_on_runs` are satisfiable: on `twoReports` the call of step 5 comes at 35 s
+= the begin of the last acknowledged report (5 s) + half the maximum interval (30 s), nothing is pending -/
+example : ∃ (hz n : Nat) (sched : Nat → Op) (m1 j2 : Nat) (c1 : Ctx) (x : Sub) (now ev : Nat),
+    c1 ∈ (stateAt hz n sched m1).ctxs ∧ sched m1 = .fin c1.sub.id .keep ∧ m1 < j2 ∧
+    NoRestart sched (m1 + 1) j2 ∧ (∀ t, m1 < t → t < j2 → sched t ≠ .fin c1.sub.id .keep) ∧
+    x ∈ (stateAt hz n sched j2).subs ∧ x.id = c1.sub.id ∧ sched j2 = .report now ev ∧
+    x.reportAllowedAt hz ≤ now ∧
+    c1.nextReportedAt + (c1.sub.maxInt - c1.sub.maxInt / 2) * hz ≤ IMAX ∧
+    c1.nextReportedAt + (c1.sub.maxInt - c1.sub.maxInt / 2) * hz ≤ now ∧
+    x.pending (stateAt hz n sched j2).changed.entries ev = false ∧
+    FirstInLine hz (stateAt hz n sched j2).subs x now (stateAt hz n sched j2).changed.entries ev :=
+  ⟨1000000, 1, twoReports, 4, 5, ctxA, ctxB.sub, 35000000, 0, by decide, rfl, by omega,
+    twoReports_no_restart _ _, fun t h1 h2 => by omega, by decide, rfl, rfl, by decide, by decide, by decide,
+    by decide,
+    by
+      have : (stateAt 1000000 1 twoReports 5).subs = [ctxB.sub] := by decide
+      rw [this]; exact firstInLine_sole _ _ _ _ _⟩
 
 /-- the hypotheses of `expiry_on_runs` are satisfiable: the sweep of step 7 runs at 95 s, the last kept
 report of subscription 1 began at 35 s, its maximum interval is 60 s -/
